@@ -288,3 +288,22 @@ impl LuaIndex for LuaMemberIndex {
         self.owner_members.clear();
     }
 }
+
+#[cfg(feature = "verif-hooks")]
+impl LuaMemberIndex {
+    /// verif hook H1: entry counts of every map of this index
+    pub fn verif_sizes(&self, out: &mut Vec<(String, usize)>) {
+        out.push(("member.members".into(), self.members.len()));
+        out.push(("member.in_filed".into(), self.in_filed.len()));
+        out.push((
+            "member.in_filed.sum".into(),
+            self.in_filed.values().map(|v| v.len()).sum(),
+        ));
+        out.push(("member.owner_members".into(), self.owner_members.len()));
+        out.push((
+            "member.owner_members.sum".into(),
+            self.owner_members.values().map(|m| m.get_member_len()).sum(),
+        ));
+        out.push(("member.member_current_owner".into(), self.member_current_owner.len()));
+    }
+}
